@@ -1,23 +1,36 @@
 """C11 — stochastic quantizers are unbiased, bounded, finite and accounted.
 
+Level of comparison.  The property fixes the LAW of the quantizers, not their random stream: which
+key a client gets, how a key is turned into draws, how draws are turned into up/down decisions and
+what an exact tie yields are all free.  Nothing in this check predicts, intercepts or compares keys
+or draws.  What is compared with the exact Lean model (exact rationals, no draws):
+  * per coordinate: the output is one of the two admissible values the model lists (uniform /
+    binary: the grid levels just below / above; TernGrad: 0 or s*sign(c); DRIVE: the formula);
+  * aggregators: cumulative bit count, None-ness and leaf sizes of the aggregate, distance of the
+    aggregate from the model's exact weighted mean.
+Everything else is an oracle on values returned by the public API (and, when every client is routed
+exactly once through the public module-level helpers `*_quantize_pytree`, `drive_pytree`,
+`walsh_hadamard.*_pytree`, on the values those helpers returned; if an implementation does not use
+them, those clauses are skipped, never reported).
+
 Case kinds
   quant     one call of a module-level quantizer (uniform / binary / tern / drive) on one array
-  agg       a history of rounds of one compression aggregator (uniform, uniform_arith, rotated,
-            drive, tern) on generated client trees / weights
+  agg       a history of rounds of ONE aggregator object (uniform, uniform_arith, rotated, drive, tern)
+            on generated client trees (jax arrays owned by the caller) / weights / feeds / faults;
+            `identical` cases are the independence probes (all clients hold the same off-grid tree)
   bias      expectation over the key, estimated over `n` keys (vmap); judged with a Bernstein bound
-            (failure probability 1e-10) computed from the exact two-point distribution
-  grid_big  a large on-grid vector (zeros and one 1): hunts the measure-zero draw `u == 0.0`
-  tie_big   a large vector of 0.5's between 0 and 1 (L = 2, everything exact in float32): hunts
-            exact ties `u == frac`; strict comparison with the model (correspondence only)
+            (failure probability 1e-10) computed from the exact two-point distribution; stratified
+  grid_big  a large on-grid vector (zeros and one 1): fixed points also for keys with a draw `u == 0.0`
+  tie_big   a large vector of 0.5's between 0 and 1: both outcomes of an exact tie are accepted;
+            levels, end points and the fraction of upper levels (6 sigma of 2^22 fair coins)
   range     float32 range probes (max - min, sum of squares overflow): real code only, float-only
 
-Oracle (independent of the Lean model and of how the implementation consumes its key):
-neighbouring levels / range / one-step error / finiteness / fixed points / TernGrad level set /
-DRIVE formula / aggregate = weighted mean of the recorded per-client quantised trees / error bound /
-keys distinct across clients and rounds / bit-count increments / expectation (bias cases).
-Correspondence (model): the harness derives the key the model's path names with the real
-`jax.random.split`, draws `u = jax.random.uniform(key, shape)` itself and asks the model for the
-quantised value; near-ties (|u - frac| tiny) accept either neighbour.
+Oracle: neighbouring levels / range / one-step error / finiteness / fixed points / TernGrad level
+set / DRIVE formula / aggregate = weighted mean of the per-client quantised trees, each on ITS grid /
+weighted one-step error bound / different randomness for different clients and rounds (equal
+quantised values of identical off-grid updates; state key changes every round) / bit increments /
+caller's arrays still valid and re-aggregation identical / retry, streaming and fresh-object
+equalities / expectation (bias cases).
 """
 import math
 from fractions import Fraction as Fr
@@ -171,12 +184,15 @@ class C11(core.Property):
           'non-trivial = the vector has at least one coordinate strictly between two grid levels '
           '(quant/bias) or at least two clients with different trees (agg); distinct by case digest')
   TRUSTED = ['JAX PRNG idealisation: distinct key paths give independent uniform streams (C11_keys_fresh '
-             'proves the paths are distinct and prefix-free; independence itself is assumed)',
-             'jax.random.uniform returns values in [0,1) (monitored on every draw the harness makes)',
+             'proves the paths of the modelled plumbing distinct and prefix-free; for the implementation, different '
+             'randomness is observed on values only: identical off-grid updates must not quantise identically)',
+             'the expectation clause is checked statistically on the implementation (Bernstein bound) and proved '
+             'for the model (C11_unbiased*); the model is tied to the implementation at the level of admissible '
+             'values (C11_admissible), never at the level of individual draws',
              'the rotation commutes with positive scaling over the reals (C11_scale is proved for rational '
              'factors; the factor 1/sqrt(d) is irrational for odd log2 d)',
-             'float32 rounding is outside the exact model: values compared with the tolerance policy, '
-             'level choices exactly except within 2^-20 + 1e-6(1+t) of a tie']
+             'float32 rounding is outside the exact model: values compared with the tolerance policy; a '
+             'coordinate within 1e-5 (relative) of a grid level may land on the next level outward']
   ASSUMPTIONS = ['inputs are finite float32 arrays; num_levels >= 2; weights >= 0',
                  'sigma of TernGrad is supplied to the model as the float64 square root of the exact variance']
   QUICK_BUDGET_S = 150
@@ -189,37 +205,12 @@ class C11(core.Property):
     from fedjax.aggregators import compression
     from fedjax.aggregators import walsh_hadamard
     self.jax, self.jnp, self.C, self.WH = jax, jnp, compression, walsh_hadamard
-    self._keys = {}
-
-  def key_of(self, seed, path):
-    """the real key named by a model path: split(key, n)[i] along the path."""
-    jax = self.jax
-    p = tuple(tuple(s) for s in path)
-    ck = (seed, p)
-    if ck in self._keys:
-      return self._keys[ck]
-    if not p:
-      k = jax.random.PRNGKey(seed)
-    else:
-      n, i = p[-1]
-      k = jax.random.split(self.key_of(seed, p[:-1]), n)[i]
-    self._keys[ck] = k
-    if len(self._keys) > 20000:
-      self._keys.clear()
-    return k
-
-  def uniform_draw(self, key, shape, ctx):
-    u = np.asarray(self.jax.random.uniform(key, tuple(shape)))
-    ctx.count('uniform_draws_checked', int(u.size))
-    if u.size and not (u.min() >= 0.0 and u.max() < 1.0):
-      raise core.InfraError('jax.random.uniform left [0,1)')
-    return u
 
   # ---------------------------------------------------------------------------------------------
   def gen_cases(self, rng, tier):
     n_quant = {'quick': 360, 'thorough': 5000, 'search': 300}[tier]
     n_agg = {'quick': 32, 'thorough': 600, 'search': 30}[tier]
-    n_bias = {'quick': 10, 'thorough': 120, 'search': 40}[tier]
+    n_bias = {'quick': 12, 'thorough': 120, 'search': 40}[tier]
     n_big = {'quick': 16, 'thorough': 64, 'search': 24}[tier]
     # float32 range probes (real code only)
     for q in ('uniform', 'binary', 'tern', 'drive'):
@@ -237,12 +228,13 @@ class C11(core.Property):
               if n <= 3:
                 yield {'kind': 'quant', 'q': q, 'v': [f32(x * 2.0 ** -33) for x in v], 'shape': [n], 'L': L,
                        'seed': code % 7, 'vk': 'enum*2^-33'}
-    n_cohort = {'quick': 4, 'thorough': 24, 'search': 4}[tier]
+    n_indep = {'quick': 12, 'thorough': 96, 'search': 12}[tier]
     sched = (['quant'] * n_quant + ['agg'] * n_agg + ['bias'] * n_bias + ['grid_big'] * n_big +
-             ['tie_big'] * (n_big // 2) + ['cohort'] * n_cohort)
+             ['tie_big'] * (n_big // 4) + ['indep'] * n_indep)
     rng.shuffle(sched)
     agg_i = rng.randrange(40)
-    cohort_i = rng.randrange(4)
+    indep_i = rng.randrange(12)
+    bias_i = rng.randrange(6)
     for kind in sched:
       if kind == 'quant':
         shape = rng.choice(SHAPES)
@@ -254,21 +246,60 @@ class C11(core.Property):
       elif kind == 'agg':
         yield self.gen_agg(rng, agg_i)
         agg_i += 1
-      elif kind == 'cohort':
-        # idx 0..3 = uniform, drive, rotated, tern: each aggregator gets a > 64-client round per run
-        yield self.gen_agg(rng, cohort_i % 4, cohort=rng.choice([65, 66, 70, 129]) if tier != 'quick' else rng.choice([65, 66, 70]))
-        cohort_i += 1
+      elif kind == 'indep':
+        yield self.gen_indep(rng, indep_i, big=(tier != 'quick'))
+        indep_i += 1
       elif kind == 'bias':
-        L = rng.choice([2, 3, 4, 7, 16])
+        # the expectation clause is judged statistically only (the model no longer replicates draws),
+        # so it is stratified: uniform every other case (cycling L), binary and TernGrad in between,
+        # always on vectors with coordinates strictly between levels
+        q = ['uniform', 'binary', 'uniform', 'tern', 'uniform', 'binary'][bias_i % 6]
+        L = [2, 3, 4, 7, 16][(bias_i // 2) % 5]
+        bias_i += 1
         n = rng.choice([3, 5, 8])
-        v, vk = gen_vec(rng, n, L)
-        yield {'kind': 'bias', 'q': rng.choice(['uniform', 'binary', 'tern']), 'v': v, 'L': L,
-               'seed': rng.randrange(1 << 30), 'n': 4096}
+        for _ in range(20):
+          v, vk = gen_vec(rng, n, L)
+          if vk.split('*')[0] in ('ints', 'dyadic', 'normal', 'near', 'range') and len(set(v)) > 2:
+            break
+        yield {'kind': 'bias', 'q': q, 'v': v, 'L': L, 'seed': rng.randrange(1 << 30), 'n': 4096}
       elif kind == 'tie_big':
         yield {'kind': 'tie_big', 'q': rng.choice(['uniform', 'binary']), 'log2n': 22, 'seed': rng.randrange(1 << 30)}
       else:
         yield {'kind': 'grid_big', 'q': rng.choice(['binary', 'binary', 'uniform', 'tern']), 'log2n': 22,
                'seed': rng.randrange(1 << 30)}
+
+  def gen_indep(self, rng, idx, big=False):
+    """identical-client probes: every client of every round holds the SAME large off-grid tree, so that
+    equal quantised values can only come from equal randomness.  Stratified over the four aggregators
+    and three patterns: two clients of one small round, two clients 64 positions apart in one round
+    of more than 64 clients, and one client per round over several rounds.  Only the marked clients
+    have weight 1, the others weight 0 (their content is the same tree)."""
+    agg = ['uniform', 'rotated', 'tern', 'drive'][idx % 4]
+    pattern = ['pair', 'cohort', 'rounds'][(idx // 4) % 3]
+    L = rng.choice([2, 3, 4])
+    n = 64
+    if agg == 'uniform':
+      X = [0.0, float(L - 1)] + [rng.randrange(L - 1) + 0.5 for _ in range(n - 2)]
+    elif agg == 'tern':
+      X = [2.0, -2.0] + [rng.choice([-1.0, 1.0]) for _ in range(n - 2)]      # nothing clipped, p = 1/2
+    else:
+      X = [f32(rng.gauss(0, 1)) for _ in range(n)]
+    e = rng.choice([0, 0, -30])
+    X = [f32(x * 2.0 ** e) for x in X]
+    if pattern == 'pair':
+      ncl = rng.choice([2, 3, 4])
+      i, j = sorted(rng.sample(range(ncl), 2))
+      marks = [[i, j]]
+    elif pattern == 'cohort':
+      ncl = rng.choice([65, 66, 70] + ([129, 130] if big else []))
+      i = rng.randrange(ncl - 64)
+      marks = [[i, i + 64]]
+    else:
+      ncl = rng.choice([2, 3])
+      marks = [[rng.randrange(ncl)] for _ in range(3)]
+    rounds = [[[[X], 1.0 if c in m else 0.0] for c in range(ncl)] for m in marks]
+    return {'kind': 'agg', 'agg': agg, 'L': L, 'round_shapes': [[[n]]] * len(rounds), 'rounds': rounds,
+            'seed': rng.randrange(1 << 30), 'feed': rng.choice(['list', 'gen']), 'identical': True}
 
   def gen_agg(self, rng, idx=None, cohort=None):
     # stratified over (aggregator, how the tree changes between rounds) so that every combination
@@ -563,40 +594,6 @@ class C11(core.Property):
       return 'subnormal-underflow'
     return None
 
-  def model_quant(self, q, v, us, L, ctx, sigma=None):
-    if q == 'uniform':
-      return ctx.drv.ask([line('c11.uniform', L, us, v)])[0]
-    if q == 'binary':
-      return ctx.drv.ask([line('c11.binary', us, v)])[0]
-    if q == 'tern':
-      return ctx.drv.ask([line('c11.tern', Fr(sigma), us, v)])[0]
-    return ctx.drv.ask([line('c11.drive', v)])[0]
-
-  def tie(self, q, v, us, L, i, sigma=None):
-    """is coordinate i within float rounding of a decision boundary of the exact model?"""
-    if q == 'drive':
-      return False
-    if q == 'tern':
-      c = clip_tern(v, sigma)
-      m = max(abs(x) for x in c)
-      if m == 0:
-        return True
-      fr, t = abs(c[i]) / m, abs(c[i]) / m
-      S = max(abs(x) for x in v)
-      # the clip decision itself may differ when |x| is within rounding of 2.5 sigma
-      b = Fr(sigma) * 5 / 2
-      if any(abs(abs(x) - b) <= Fr(1, 10 ** 5) * S for x in v):
-        return True
-      # float32 error of sigma / of |c|/m relative to the level spacing m
-      t = t + S / m
-    else:
-      Lq = L if q == 'uniform' else 2
-      _, _, lev = uniform_levels(v, Lq)
-      _, _, fr, t = lev[i]
-    tau = Fr(1, 2 ** 20) + Fr(1, 10 ** 6) * (1 + abs(t))
-    u = us[i]
-    return min(abs(u - fr), abs(u - fr - 1), abs(u - fr + 1)) < tau
-
   def eval_quant(self, case, ctx):
     jnp = self.jnp
     q, L, shape = case['q'], case['L'], case['shape']
@@ -616,20 +613,13 @@ class C11(core.Property):
     out2 = np.asarray(self.call_quant(q, jnp.asarray(x), L, key))
     if not np.array_equal(out, out2, equal_nan=True):
       problems.append('same key gave a different result')
-    # ---- model
-    us = fr_list(self.uniform_draw(key, shape, ctx)) if q != 'drive' else []
-    sigma = std64(v) if q == 'tern' else None
-    model = self.model_quant(q, v, us, L, ctx, sigma)
-    ties = 0
+    # ---- model: the admissible values of every coordinate (exact rationals, no draws: how the
+    # implementation turns its random stream into up/down decisions is not fixed by the property)
+    model = ctx.drv.ask([self.adm_line(q, v, L)])[0]
     if not problems:
-      S = max(abs(a) for a in v) * 2
-      for i, (o, m) in enumerate(zip(out.reshape(-1), model)):
-        if abs(Fr(float(o)) - m) > tol(S, m) * (4 if q == 'drive' else 1):
-          if self.tie(q, v, us, L, i, sigma):
-            ties += 1
-            continue
-          corr.append(f'coordinate {i}: impl {float(o)} vs model {float(m)} (u = {float(us[i]) if us else None})')
-    ctx.count('tie_coordinates_accepted', ties)
+      bad = self.not_admissible(q, v, out.reshape(-1), model, L)
+      if bad:
+        corr.append(bad)
     nontrivial = False
     if q in ('uniform', 'binary'):
       nontrivial = any(fr != 0 for (_, _, fr, _) in uniform_levels(v, L if q == 'uniform' else 2)[2])
@@ -644,7 +634,7 @@ class C11(core.Property):
     return Outcome(oracle_fail='; '.join(problems[:3]) or None, corr_fail='; '.join(corr[:3]) or None,
                    key=(f'C11/{q}/{okey}' if okey else None), nontrivial=nontrivial, tags=tags,
                    detail={'impl': [float(o) for o in out.reshape(-1)][:64],
-                           'model': [float(m) for m in model][:64], 'u': [float(u) for u in us][:64]})
+                           'model_admissible': [[float(c) for c in (m if isinstance(m, list) else [m])] for m in model][:64]})
 
   # ---- float32 range probes -------------------------------------------------------------------
   def eval_range(self, case, ctx):
@@ -737,35 +727,29 @@ class C11(core.Property):
                    nontrivial=len(zeros) > 0, tags=(f'grid_big:{q}', f'zero_draws={min(len(zeros), 2)}'),
                    detail={'changed': [int(i) for i in bad[:5]], 'zero_draw_indices': [int(i) for i in zeros[:5]]})
 
-  # ---- exact ties u == frac (no float rounding involved: 0, 1/2, 1 with L = 2) -----------------
+  # ---- exact ties u == frac (0, 1/2, 1 with L = 2: everything exact in float32) ---------------
   def eval_tie_big(self, case, ctx):
+    """A large vector of 0.5's between 0 and 1.  Exact ties `u == frac` do occur here; the property does
+    not fix which neighbour an exact tie yields, so both are accepted: every output must be 0 or 1
+    and the two end points must stay."""
     jax, jnp = self.jax, self.jnp
     q, n = case['q'], 1 << case['log2n']
     key = jax.random.PRNGKey(case['seed'])
     x = np.full(n, 0.5, np.float32)
     x[0], x[n - 1] = 0.0, 1.0
     out = np.asarray(self.call_quant(q, jnp.asarray(x), 2, key))
-    u = np.asarray(jax.random.uniform(key, (n,)))
-    ties = np.nonzero(u == 0.5)[0]
-    ties = ties[(ties > 0) & (ties < n - 1)]
-    ctx.count('exact_half_draws_seen', int(len(ties)))
-    problems, corr = [], []
+    problems = []
     if not np.all((out == 0.0) | (out == 1.0)):
       problems.append('output outside the two levels {0, 1}')
     if out[0] != 0.0 or out[n - 1] != 1.0:
       problems.append(f'end points changed: {out[0]}, {out[n - 1]}')
-    idx = [int(i) for i in ties[:20]] + list(range(1, 7))
-    v = [Fr(0)] + [Fr(1, 2)] * len(idx) + [Fr(1)]
-    us = [Fr(float(u[0]))] + [Fr(float(u[i])) for i in idx] + [Fr(float(u[n - 1]))]
-    model = ctx.drv.ask([line('c11.uniform', 2, us, v) if q == 'uniform' else line('c11.binary', us, v)])[0]
-    for i, m in zip(idx, model[1:-1]):
-      if Fr(float(out[i])) != m:
-        corr.append(f'coordinate {i}: x = 0.5, draw u = {float(u[i])}: impl {float(out[i])} vs model {float(m)}'
-                    + (' (exact tie u == frac)' if u[i] == 0.5 else ''))
-    return Outcome(oracle_fail='; '.join(problems) or None, corr_fail='; '.join(corr[:3]) or None,
-                   key=(f'C11/{q}/not-neighbour' if problems else None), nontrivial=len(ties) > 0,
-                   tags=(f'tie_big:{q}', f'half_draws={min(len(ties), 2)}'),
-                   detail={'tie_indices': [int(i) for i in ties[:5]]})
+    frac1 = float(np.mean(out[1:n - 1]))
+    # 2^22 fair coins: |mean - 1/2| > 6 sigma = 6 / (2 * 2^11) has probability < 1e-8
+    if abs(frac1 - 0.5) > 6.0 / (2.0 * math.sqrt(n - 2)) + 2.0 ** -22:
+      problems.append(f'fraction of upper levels among {n - 2} coordinates at frac = 1/2 is {frac1}')
+    return Outcome(oracle_fail='; '.join(problems) or None,
+                   key=(f'C11/{q}/biased' if problems and 'fraction' in problems[-1] else f'C11/{q}/not-neighbour') if problems else None,
+                   nontrivial=True, tags=(f'tie_big:{q}',), detail={'fraction_upper': frac1})
 
   # ---- aggregator histories -------------------------------------------------------------------
   def make_agg(self, case, root):
@@ -784,6 +768,11 @@ class C11(core.Property):
     raise ValueError(a)
 
   def eval_agg(self, case, ctx):
+    """One history of one aggregator object.  Nothing here predicts or compares PRNG keys or draws:
+    which stream a seed yields is not fixed by the property.  Observables: the aggregate and the
+    state returned by the public `apply`, the caller's own arrays, and - when the aggregator routes
+    every client through the module-level public helpers (`*_quantize_pytree`, `drive_pytree`,
+    `walsh_hadamard.*_pytree`) exactly once - the values those helpers returned."""
     jax, jnp, C, WH = self.jax, self.jnp, self.C, self.WH
     a, L, seed = case['agg'], case['L'], case['seed']
     rs = self.rshapes(case)           # leaf shapes per round (same aggregator object throughout)
@@ -792,37 +781,62 @@ class C11(core.Property):
     root = jax.random.PRNGKey(seed)
     problems, corr, okey = [], [], None
 
+    def fail(msg, key):
+      nonlocal okey
+      problems.append(msg)
+      okey = okey or f'C11/{a}/{key}'
+
     def tree_of(leaves, shapes):
       return {nm: jnp.asarray(np.asarray(lv, np.float32).reshape(sh)) for nm, lv, sh in zip(ALL, leaves, shapes)}
 
     def flat(tree):
       return [np.asarray(tree[nm]) for nm in ALL if nm in tree]
 
-    # recorders around the module-level functions the aggregators call
+    def npflat(tree):
+      """numpy copies of the leaves, taken at once (a later caller may donate / overwrite them)"""
+      return [np.array(x) for x in jax.tree_util.tree_leaves(tree)]
+
+    # recorders around the public module-level helpers (values only; no keys)
     rec = {'quant': [], 'rot': [], 'inv': []}
     orig = {}
 
-    def wrap(mod, name, slot, key_arg):
-      f = getattr(mod, name)
+    def wrap(mod, name, slot, pick=lambda res: res):
+      f = getattr(mod, name, None)
+      if f is None:
+        return
       orig[(mod, name)] = f
 
       def g(*args, **kw):
         res = f(*args, **kw)
-        rec[slot].append({'key': None if key_arg is None else np.asarray(args[key_arg]).copy(),
-                          'in': args[0], 'out': res})
+        try:
+          rec[slot].append(npflat(pick(res)))
+        except Exception:          # never let the recorder change the behaviour under test
+          rec[slot].append(None)
         return res
       setattr(mod, name, g)
 
-    wrap(C, 'uniform_stochastic_quantize_pytree', 'quant', 2)
-    wrap(C, 'terngrad_quantize_pytree', 'quant', 1)
-    wrap(C, 'drive_pytree', 'quant', None)
-    wrap(WH, 'structured_rotation_pytree', 'rot', 1)
-    wrap(WH, 'inverse_structured_rotation_pytree', 'inv', 1)
+    wrap(C, 'uniform_stochastic_quantize_pytree', 'quant')
+    wrap(C, 'terngrad_quantize_pytree', 'quant')
+    wrap(C, 'drive_pytree', 'quant')
+    wrap(WH, 'structured_rotation_pytree', 'rot', lambda res: res[0])
+    wrap(WH, 'inverse_structured_rotation_pytree', 'inv')
     impl_rounds = []
+
+    def same_result(o1, s1, o2, s2):
+      diffs = []
+      if (o1 is None) != (o2 is None) or (o1 is not None and not all(
+          np.array_equal(x, y, equal_nan=True) for x, y in zip(o1, o2))):
+        diffs.append('aggregate differs')
+      if not np.array_equal(np.asarray(s1.rng), np.asarray(s2.rng)):
+        diffs.append('state key differs')
+      n1, n2 = float(s1.num_bits), float(s2.num_bits)
+      if abs(n1 - n2) > 1e-6 * abs(n2) + 1e-6:
+        diffs.append(f'num_bits {n1} vs {n2}')
+      return diffs
+
     try:
       aggr = self.make_agg(case, root)
       st = aggr.init()
-      states = [st]
       faults = {}
       for fr, k in case.get('faults', []):
         faults.setdefault(fr, []).append(k)
@@ -856,7 +870,9 @@ class C11(core.Property):
         raise core.InfraError(f'unknown feed {feed}')
 
       for r, (clients, shapes) in enumerate(zip(case['rounds'], rs)):
+        # client updates are jax arrays owned by the caller
         cpw = [(b'c%d' % i, tree_of(lv, shapes), w) for i, (lv, w) in enumerate(clients)]
+        snaps = [[np.asarray(lv, np.float32).reshape(sh) for lv, sh in zip(leaves, shapes)] for leaves, _ in clients]
         # failed attempts of this round: the client stream raises after k clients were consumed;
         # the caller then retries from the unchanged state on the same aggregator object
         for k in faults.get(r, []):
@@ -871,82 +887,83 @@ class C11(core.Property):
             corr.append(f'round {r}: apply returned although its client stream raised after {k} clients')
           except _ClientDropped:
             ctx.count('failed_attempts_injected')
+          except Exception as e:   # anything else is reported with the real attempt below
+            ctx.count('failed_attempt_other_exception')
           faulted_before = True
         for s in rec.values():
           s.clear()
-        snaps = [[l.copy() for l in flat(t)] for _, t, _ in cpw]
-        out, st2 = aggr.apply(produce(cpw), st)
+        try:
+          out, st2 = aggr.apply(produce(cpw), st)
+        except Exception as e:
+          fail(f'round {r}: apply raised {type(e).__name__}: {str(e)[:160]} on finite client updates'
+               + (' (after a failed attempt of the same round)' if r in faults else ''), 'apply-raised')
+          break
         if out is not None:
           out = jax.tree_util.tree_map(lambda x: np.array(x), out)
-        if any(not np.array_equal(s, l) for sn, (_, t, _) in zip(snaps, cpw) for s, l in zip(sn, flat(t))):
-          problems.append('client params mutated by apply')
-        impl_rounds.append({'out': None if out is None else flat(out), 'st': st2,
-                            'rec': {k: list(v) for k, v in rec.items()}, 'prev': st, 'ref': None})
+        recs = {k: list(v) for k, v in rec.items()}
+        # the caller's updates must still be readable and unchanged after apply
+        try:
+          for (cid, t, w), sn in zip(cpw, snaps):
+            for leaf, s0 in zip(flat(t), sn):
+              if not np.array_equal(leaf, s0):
+                raise ValueError(f'values of client {cid!r} changed')
+        except Exception as e:
+          fail(f'round {r}: the caller\'s client updates are no longer usable after apply: '
+               f'{type(e).__name__}: {str(e)[:160]}', 'inputs-invalidated')
+          break
+        ir = {'out': None if out is None else flat(out), 'st': st2, 'rec': recs, 'prev': st, 'ref': None}
+        impl_rounds.append(ir)
+        # aggregating the SAME updates a second time from the same state gives the same result
+        if feed == 'list' and not case.get('identical'):
+          try:
+            out_2, st_2 = aggr.apply(cpw, st)
+            d2 = same_result(None if out_2 is None else flat(out_2), st_2, ir['out'], st2)
+            if d2:
+              fail(f'round {r}: aggregating the same client updates a second time from the same state gives a '
+                   f'different result: ' + ', '.join(d2), 'reapply-differs')
+          except Exception as e:
+            fail(f'round {r}: aggregating the same client updates a second time raised {type(e).__name__}: '
+                 f'{str(e)[:160]}', 'reapply-raised')
+            break
         if faulted_before or feed != 'list':
           # reference for a retried round (and the rounds after it) and for every streamed round:
           # the same clients, as a list of fresh trees, and the same state on a freshly built
           # aggregator object
-          out_f, st_f = self.make_agg(case, root).apply(cpw, st)
-          impl_rounds[-1]['ref'] = (None if out_f is None else flat(out_f), st_f)
+          try:
+            out_f, st_f = self.make_agg(case, root).apply(cpw, st)
+            ir['ref'] = (None if out_f is None else flat(out_f), st_f)
+          except Exception as e:
+            fail(f'round {r}: the same updates given as a list to a fresh aggregator object raised '
+                 f'{type(e).__name__}: {str(e)[:160]}', 'reapply-raised')
+            break
         st = st2
-        states.append(st)
       # hidden state in the aggregator object: replaying round 0 from a fresh init() on the SAME
-      # object must reproduce round 0 exactly (the model's round is a function of state and clients)
-      if case['rounds']:
+      # object must reproduce round 0 exactly (a round is a function of state and clients)
+      if case['rounds'] and impl_rounds and not problems:
         cpw = [(b'c%d' % i, tree_of(lv, rs[0]), w) for i, (lv, w) in enumerate(case['rounds'][0])]
         out_b, st_b = aggr.apply(cpw, aggr.init())
         first = impl_rounds[0]
-        same = (out_b is None) == (first['out'] is None) and (
-            out_b is None or all(np.array_equal(x, y, equal_nan=True) for x, y in zip(flat(out_b), first['out'])))
-        if not same or float(st_b.num_bits) != float(first['st'].num_bits) or not np.array_equal(
-            np.asarray(st_b.rng), np.asarray(first['st'].rng)):
+        d0 = same_result(None if out_b is None else flat(out_b), st_b, first['out'], first['st'])
+        if d0:
           corr.append('replaying round 0 from init() on the same aggregator object after the history gives a '
-                      f'different result (bits {float(st_b.num_bits)} vs {float(first["st"].num_bits)})')
+                      'different result: ' + ', '.join(d0))
     finally:
       for (mod, name), f in orig.items():
         setattr(mod, name, f)
 
-    # ---- model: key paths, derived draws, history
-    ncl = max(len(cl) for cl in case['rounds'])
+    # ---- model: bit accounting and exact weighted mean (no draws involved)
     R = len(case['rounds'])
-    nls = sorted({len(x) for x in rs})
-    kans = dict(zip(nls, ctx.drv.ask([line('c11.keys', kind, [], n_, R, ncl) for n_ in nls])))
-    kq = [kans[len(rs[r])][0][r] for r in range(R)]
-    ksign = [kans[len(rs[r])][1][r] if kind == 'rotated' else [] for r in range(R)]
-    draws, sigmas = [], []
-    client_keys_model = []   # per round per client: key one level above the leaf keys
-    for r, clients in enumerate(case['rounds']):
-      ck = []
-      for c, (leaves, w) in enumerate(clients):
-        ck.append(np.asarray(self.key_of(seed, kq[r][c][0][:-1])))
-        for l, (lv, sh) in enumerate(zip(leaves, rs[r])):
-          p = kq[r][c][l]
-          key = self.key_of(seed, p)
-          n = len(lv)
-          d = 1 << max(0, math.ceil(math.log2(n))) if n > 1 else 1
-          if kind == 'drive':
-            draws.append([p, [int(s) for s in np.asarray(jax.random.rademacher(key, (d,)))]])
-          elif kind == 'rotated':
-            draws.append([p, fr_list(self.uniform_draw(key, (d,), ctx))])
-          else:
-            draws.append([p, fr_list(self.uniform_draw(key, sh, ctx))])
-          if kind == 'tern':
-            sigmas.append([p, Fr(std64(fr_list(lv)))])
-      client_keys_model.append(ck)
-      if kind == 'rotated':
-        for l, lv in enumerate(clients[0][0] if clients else []):
-          p = ksign[r][l]
-          n = len(lv)
-          d = 1 << max(0, math.ceil(math.log2(n))) if n > 1 else 1
-          draws.append([p, [int(s) for s in np.asarray(jax.random.rademacher(self.key_of(seed, p), (d,)))]])
+    ncl = max([len(cl) for cl in case['rounds']] + [0])
     mrounds = [[[[fr_list(lv) for lv in leaves], Fr(w)] for leaves, w in clients] for clients in case['rounds']]
-    model = ctx.drv.ask([line('c11.history', kind, L, [], mrounds, draws, sigmas)])[0]
+    m_acc = ctx.drv.ask([line('c11.account', kind, L, mrounds)])[0]
+    m_mean = ctx.drv.ask([line('c11.wmean', cl) for cl in mrounds]) if R else []
 
     # ---- per round: oracle + correspondence
     bits_prev = 0.0
-    seen_keys = {}
-    any_tie = False
-    for r, (clients, ir, mr) in enumerate(zip(case['rounds'], impl_rounds, model)):
+    seen_state = {}
+    marked_aggs = []        # identical-client probes: (round, aggregate) of rounds with one marked client
+    all_q = []              # identical-client probes: every recorded per-client quantised tree
+    for r, (clients, ir) in enumerate(zip(case['rounds'], impl_rounds)):
       out = ir['out']
       nl = len(rs[r])
       names = ALL[:nl]
@@ -954,102 +971,145 @@ class C11(core.Property):
       # documented formula, evaluated on THIS round's tree (independent of the implementation)
       P = sum(int(np.prod(sh)) if sh else 1 for sh in rs[r]) if clients else 0
       nleaves = nl if clients else 0
-      # finiteness
-      if out is not None and not all(np.all(np.isfinite(o)) for o in out):
+      finite = out is not None and all(np.all(np.isfinite(o)) for o in out)
+      if out is not None and not finite:
         bad = [names[i] for i, o in enumerate(out) if not np.all(np.isfinite(o))]
         zero_leaf = any(all(x == 0.0 for x in lv) for leaves, _ in clients for lv in leaves)
-        problems.append(f'round {r}: aggregate has non-finite values in leaves {bad} for finite client params')
-        okey = okey or (f'C11/{a}/nonfinite-zero-leaf' if zero_leaf else f'C11/{a}/nonfinite')
-      # (1) aggregate = weighted mean of the recorded per-client quantised trees
+        fail(f'round {r}: aggregate has non-finite values in leaves {bad} for finite client params',
+             'nonfinite-zero-leaf' if zero_leaf else 'nonfinite')
+      if out is not None and [o.shape for o in out] != [tuple(sh) for sh in rs[r]]:
+        fail(f'round {r}: aggregate leaf shapes {[o.shape for o in out]} differ from the clients\' {rs[r]}', 'shape')
+
+      # (1) per-client quantised trees, when every client went through the public helpers once
       qrec = ir['rec']['inv'] if kind in ('rotated', 'drive') else ir['rec']['quant']
-      if len(qrec) != len(clients):
-        corr.append(f'round {r}: {len(qrec)} quantizer calls recorded for {len(clients)} clients')
-      elif clients and out is not None:
+      have = clients and len(qrec) == len(clients) and all(q_ is not None for q_ in qrec)
+      if clients and not have:
+        ctx.count('rounds_without_helper_records')
+      if have and out is not None:
+        # aggregate = weighted mean of the per-client quantised trees
         for l in range(nl):
           acc = np.zeros(out[l].shape, np.float64)
-          for e, (_, w) in zip(qrec, clients):
-            acc += w * np.asarray(flat(e['out'])[l], np.float64)
+          for q_, (_, w) in zip(qrec, clients):
+            acc += w * np.asarray(q_[l], np.float64)
           want = acc / W if W > 0 else acc * 0
-          S = max([float(np.max(np.abs(np.asarray(flat(e['out'])[l], np.float64)), initial=0.0)) for e in qrec])
+          S = max([float(np.max(np.abs(q_[l]), initial=0.0)) for q_ in qrec])
           if np.all(np.isfinite(want)) and np.any(np.abs(out[l] - want) > 1e-5 * S + 1e-4 * np.abs(want) + 1e-30):
-            problems.append(f'round {r} leaf {names[l]}: aggregate {out[l].reshape(-1)[:4]} is not the weighted mean '
-                            f'{want.reshape(-1)[:4]} of the per-client quantised trees')
-            okey = okey or f'C11/{a}/not-weighted-mean'
+            fail(f'round {r} leaf {names[l]}: aggregate {out[l].reshape(-1)[:4]} is not the weighted mean '
+                 f'{want.reshape(-1)[:4]} of the per-client quantised trees', 'not-weighted-mean')
+      # every per-client quantised leaf lies on ITS grid (uniform/TernGrad: the client's own leaf;
+      # rotated: the rotated leaf the implementation quantised; DRIVE: formula on the rotated leaf)
+      qq = ir['rec']['quant']
+      rr = ir['rec']['rot']
+      if clients and len(qq) == len(clients) and all(x is not None for x in qq) and (
+          kind in ('uniform', 'tern') or (len(rr) == len(clients) and all(x is not None for x in rr))):
+        lines, meta = [], []
+        for c, (leaves, w) in enumerate(clients):
+          for l in range(nl):
+            src = fr_list(leaves[l]) if kind in ('uniform', 'tern') else fr_list(rr[c][l])
+            got = np.asarray(qq[c][l]).reshape(-1)
+            if len(got) != len(src) or not np.all(np.isfinite(got)):
+              continue
+            qk = {'uniform': 'uniform', 'rotated': 'uniform', 'tern': 'tern', 'drive': 'drive'}[kind]
+            p2, k2 = self.oracle_quant(qk, src, got, L)
+            if p2:
+              fail(f'round {r} client {c} leaf {names[l]}' + (' (rotated space)' if kind in ('rotated', 'drive') else '')
+                   + ': ' + p2[0], k2 or 'not-neighbour')
+            lines.append(self.adm_line(qk, src, L))
+            meta.append((c, l, qk, src, got))
+        for (c, l, qk, src, got), adm in zip(meta, ctx.drv.ask(lines)):
+          bad = self.not_admissible(qk, src, got, adm, L)
+          if bad:
+            corr.append(f'round {r} client {c} leaf {names[l]}: {bad}')
+
       # (2) error bound against the exact weighted mean (uniform: coordinate-wise; rotated: l2)
-      if kind in ('uniform', 'rotated') and clients and W > 0 and out is not None and all(np.all(np.isfinite(o)) for o in out):
+      if kind in ('uniform', 'rotated') and clients and W > 0 and finite:
         for l in range(nl):
           exact = sum(w * np.asarray(lv[l], np.float64) for lv, w in clients) / W
           if kind == 'uniform':
-            bound = max((max(lv[l]) - min(lv[l])) / (L - 1) for lv, w in clients if w > 0)
+            # convexity: |agg - mean| <= sum_i w_i step_i / W
+            bound = sum(w * (max(lv[l]) - min(lv[l])) / (L - 1) for lv, w in clients) / W
             err = float(np.max(np.abs(out[l].reshape(-1) - exact)))
             S = max(max(abs(x) for x in lv[l]) for lv, _ in clients)
           else:
             bnds = []
-            for e, (lv, w) in zip(ir['rec']['rot'], clients):
-              y = np.asarray(flat(e['out'][0])[l], np.float64)
-              if w > 0:
-                bnds.append(math.sqrt(len(y)) * (y.max() - y.min()) / (L - 1))
-            bound = max(bnds) if bnds else 0.0
+            for c, (lv, w) in enumerate(clients):
+              d = 1 << max(0, math.ceil(math.log2(len(lv[l])))) if len(lv[l]) > 1 else 1
+              if len(rr) == len(clients) and rr[c] is not None:
+                y = np.asarray(rr[c][l], np.float64)
+                bnds.append(w * math.sqrt(len(y)) * (y.max() - y.min()) / (L - 1))
+              else:   # without the rotated leaf: |y_i| <= |x|_2, so the range is at most 2 |x|_2
+                bnds.append(w * math.sqrt(d) * 2 * float(np.linalg.norm(lv[l])) / (L - 1))
+            bound = sum(bnds) / W
             err = float(np.linalg.norm(out[l].reshape(-1) - exact))
             S = max(float(np.linalg.norm(lv[l])) for lv, _ in clients)
           if err > bound + tol(S, 0) * 8:
-            problems.append(f'round {r} leaf {names[l]}: aggregate is {err:.6g} from the exact weighted mean, '
-                            f'more than the largest per-client one-step bound {bound:.6g}')
-            okey = okey or f'C11/{a}/error-bound'
-      # (3) keys: distinct across clients and rounds, state key advances
-      krec = ir['rec']['rot'] if kind == 'drive' else ir['rec']['quant']
-      for c, e in enumerate(krec):
-        kk = tuple(int(x) for x in e['key'].reshape(-1))
-        if kk in seen_keys:
-          problems.append(f'round {r} client {c} uses the same PRNG key as {seen_keys[kk]}')
-          okey = okey or f'C11/{a}/key-reuse'
-        seen_keys[kk] = f'round {r} client {c}'
+            fail(f'round {r} leaf {names[l]}: aggregate is {err:.6g} from the exact weighted mean, '
+                 f'more than the weighted per-client one-step bound {bound:.6g}', 'error-bound')
+          # the same against the model's exact mean
+          mm = m_mean[r]
+          if mm is not None and len(mm) == nl and len(mm[l]) == out[l].size:
+            merr = [abs(Fr(float(o)) - m) for o, m in zip(out[l].reshape(-1), mm[l])]
+            mval = max(merr) if kind == 'uniform' else Fr(math.sqrt(float(sum(e * e for e in merr))))
+            if float(mval) > bound + tol(S, 0) * 8:
+              corr.append(f'round {r} leaf {names[l]}: aggregate is {float(mval):.6g} from the model\'s exact weighted mean '
+                          f'(bound {bound:.6g})')
+      # a round with exactly one positive weight returns that client's quantised tree: on its grid
+      pos = [c for c, (_, w) in enumerate(clients) if w > 0]
+      if kind in ('uniform', 'tern') and len(pos) == 1 and finite:
+        leaves = clients[pos[0]][0]
+        for l in range(nl):
+          p2, k2 = self.oracle_quant(kind, fr_list(leaves[l]), out[l].reshape(-1), L)
+          if p2:
+            fail(f'round {r} leaf {names[l]} (only client {pos[0]} has positive weight): ' + p2[0], k2 or 'not-neighbour')
+
+      # (3) the carried state key changes every round (never compared with a predicted key)
       sk = tuple(int(x) for x in np.asarray(ir['st'].rng).reshape(-1))
       pk = tuple(int(x) for x in np.asarray(ir['prev'].rng).reshape(-1))
-      if sk == pk or ('state', sk) in seen_keys:
-        problems.append(f'round {r}: state key not advanced')
-        okey = okey or f'C11/{a}/state-key-not-advanced'
-      seen_keys[('state', sk)] = f'state after round {r}'
-      seen_keys[('state', pk)] = f'state before round {r}'
+      if sk == pk or sk in seen_state:
+        fail(f'round {r}: state key not advanced (equal to the {seen_state.get(sk, "previous state")})',
+             'state-key-not-advanced')
+      seen_state[sk] = f'state after round {r}'
+      seen_state.setdefault(pk, f'state before round {r}')
+
       # (4) bits
       nb = float(ir['st'].num_bits)
       delta = nb - bits_prev
       if a == 'uniform_arith':
         # documented value: the mean over THIS round's clients of the code length of their quantised
         # trees (data dependent; the code length itself is the module's arithmetic_encoding_num_bits)
-        costs = [sum(float(C.arithmetic_encoding_num_bits(jnp.asarray(lf))) for lf in flat(e['out']))
-                 for e in ir['rec']['quant']]
-        want = sum(costs) / len(costs) if costs else 0.0
+        costs = None
+        if len(qq) == len(clients) and all(x is not None for x in qq):
+          costs = [sum(float(C.arithmetic_encoding_num_bits(jnp.asarray(lf))) for lf in q_) for q_ in qq]
         if not math.isfinite(nb) or delta < 0 or (clients and delta <= 0):
-          problems.append(f'round {r}: arithmetic-coding bit count {bits_prev} -> {nb}')
-          okey = okey or f'C11/{a}/bits'
-        elif len(costs) == len(clients) and abs(delta - want) > 1e-5 * (abs(nb) + want) + 1e-4:
-          problems.append(f'round {r}: num_bits grew by {delta}, but the mean arithmetic code length of this '
-                          f"round's {len(costs)} quantised client trees is {want}"
-                          + (' (the round was retried after a failed attempt)' if any(fr == r for fr, _ in case.get('faults', [])) else ''))
-          okey = okey or f'C11/{a}/bits'
+          fail(f'round {r}: arithmetic-coding bit count {bits_prev} -> {nb}', 'bits')
+        elif costs is not None:
+          want = sum(costs) / len(costs) if costs else 0.0
+          if abs(delta - want) > 1e-5 * (abs(nb) + want) + 1e-4:
+            fail(f'round {r}: num_bits grew by {delta}, but the mean arithmetic code length of this '
+                 f"round's {len(costs)} quantised client trees is {want}"
+                 + (' (the round was retried after a failed attempt)' if any(fr == r for fr, _ in case.get('faults', [])) else ''),
+                 'bits')
       else:
         per = {'uniform': math.log2(L), 'rotated': math.log2(L), 'tern': math.log2(3), 'drive': 1.0}[kind]
         want = per * P + 64 * nleaves
         if abs(delta - want) > 1e-5 * (abs(nb) + want) + 1e-6:
-          problems.append(f'round {r}: num_bits grew by {delta}, documented formula gives {want} '
-                          f'({per:.4g} bits x {P} params + 64 x {nleaves} leaves)')
-          okey = okey or f'C11/{a}/bits'
+          fail(f'round {r}: num_bits grew by {delta}, documented formula gives {want} '
+               f'({per:.4g} bits x {P} params + 64 x {nleaves} leaves)', 'bits')
+        m_none, m_log, m_const, m_shape = m_acc[r]
+        mb = per * m_log + m_const
+        if abs(mb - nb) > 1e-5 * abs(mb) + 1e-6:
+          corr.append(f'round {r}: num_bits impl {nb} vs model {mb}')
+        if bool(m_none) != (out is None):
+          corr.append(f'round {r}: aggregate is {"None" if out is None else "a tree"}, model says '
+                      f'{"None" if m_none else "a tree"}')
+        elif out is not None and [int(o.size) for o in out] != m_shape:
+          corr.append(f'round {r}: aggregate leaf sizes {[int(o.size) for o in out]} vs model {m_shape}')
       bits_prev = nb
-      # (5) a retried round (after failed attempts on the same aggregator object) and the rounds after
-      # it equal the same round on a freshly built aggregator: output, key and bit count
+
+      # (5) a retried / streamed round equals the same round given as a list to a fresh aggregator
       if ir['ref'] is not None:
         out_f, st_f = ir['ref']
-        same_out = (out_f is None) == (out is None) and (
-            out is None or all(np.array_equal(x, y, equal_nan=True) for x, y in zip(out, out_f)))
-        nb_f = float(st_f.num_bits)
-        diffs = []
-        if not same_out:
-          diffs.append('aggregate differs')
-        if not np.array_equal(np.asarray(st_f.rng), np.asarray(ir['st'].rng)):
-          diffs.append('state key differs')
-        if abs(nb - nb_f) > 1e-6 * abs(nb_f) + 1e-6:
-          diffs.append(f'num_bits {nb} vs {nb_f} on a fresh aggregator')
+        diffs = same_result(out, ir['st'], out_f, st_f)
         if diffs:
           how = []
           if case.get('faults'):
@@ -1059,120 +1119,101 @@ class C11(core.Property):
                         'rebind': 'clients fed by a generator that refills one dict object between yields',
                         'inplace': 'clients fed by a generator that overwrites the numpy leaves of one tree in place'
                         }[case['feed']])
-          problems.append(f'round {r} ({"; ".join(how)}) differs from the same round given as a list of fresh trees '
-                          f'to a fresh aggregator object: ' + ', '.join(diffs))
-          okey = okey or (f'C11/{a}/retry-differs' if case.get('faults') and case.get('feed', 'list') == 'list'
-                          else f'C11/{a}/stream-differs')
+          fail(f'round {r} ({"; ".join(how)}) differs from the same round given as a list of fresh trees '
+               f'to a fresh aggregator object: ' + ', '.join(diffs),
+               'retry-differs' if case.get('faults') and case.get('feed', 'list') == 'list' else 'stream-differs')
 
-      # ---- correspondence
-      m_out, m_log, m_const, m_rng = mr
-      kmodel = np.asarray(self.key_of(seed, m_rng))
-      if not np.array_equal(kmodel, np.asarray(ir['st'].rng)):
-        corr.append(f'round {r}: state key differs from split path {m_rng}')
-      for c, e in enumerate(krec):
-        if c < len(client_keys_model[r]) and not np.array_equal(e['key'], client_keys_model[r][c]):
-          corr.append(f'round {r} client {c}: key used differs from the key of the model path')
-      if a != 'uniform_arith':
-        per = {'uniform': math.log2(L), 'rotated': math.log2(L), 'tern': math.log2(3), 'drive': 1.0}[kind]
-        mb = per * m_log + m_const
-        if abs(mb - nb) > 1e-5 * abs(mb) + 1e-6:
-          corr.append(f'round {r}: num_bits impl {nb} vs model {mb}')
-      # per-client quantised leaves vs the model quantizer on the derived draws
-      tie_here = False
-      if kind in ('uniform', 'tern') and len(ir['rec']['quant']) == len(clients):
-        lines, meta = [], []
-        for c, (e, (leaves, w)) in enumerate(zip(ir['rec']['quant'], clients)):
-          for l, lv in enumerate(leaves):
-            p = kq[r][c][l]
-            us = next(d[1] for d in draws if d[0] == p)
-            v = fr_list(lv)
-            if kind == 'uniform':
-              lines.append(line('c11.uniform', L, us, v))
-            else:
-              lines.append(line('c11.tern', Fr(std64(v)), us, v))
-            meta.append((c, l, v, us, np.asarray(flat(e['out'])[l]).reshape(-1)))
-        for (c, l, v, us, got), mo in zip(meta, ctx.drv.ask(lines)):
-          S = max(abs(x) for x in v) * 2
-          sg = std64(v) if kind == 'tern' else None
-          for i, (o, m) in enumerate(zip(got, mo)):
-            if not math.isfinite(float(o)) or abs(Fr(float(o)) - m) > tol(S, m):
-              if math.isfinite(float(o)) and self.tie(kind, v, us, L, i, sg):
-                tie_here = True
-                continue
-              corr.append(f'round {r} client {c} leaf {names[l]} coordinate {i}: impl {float(o)} vs model {float(m)}')
-      any_tie = any_tie or tie_here
-      if m_out is None or out is None:
-        if (m_out is None) != (out is None):
-          corr.append(f'round {r}: aggregate None-ness differs')
-      elif not tie_here and all(np.all(np.isfinite(o)) for o in out):
-        for l in range(nl):
-          S = max([max(abs(x) for x in lv[l]) for lv, _ in clients] + [0.0])
-          scale = S * (8 if kind in ('rotated', 'drive') else 2)
-          got = out[l].reshape(-1)
-          mism = [i for i, (o, m) in enumerate(zip(got, m_out[l])) if abs(Fr(float(o)) - m) > tol(scale, m) * 4]
-          if len(got) != len(m_out[l]):
-            corr.append(f'round {r} leaf {names[l]}: size {len(got)} vs model {len(m_out[l])}')
-          elif mism:
-            if kind == 'rotated':
-              # a near-tie in rotated space flips one level of one client: tolerated only if the
-              # recorded rotated-space output explains it (checked below); count and skip
-              if self.rot_tie(case, ir, r, l, draws, kq, ksign, ctx):
-                any_tie = True
-                continue
-            if kind == 'drive' and self.drive_tie(clients, r, l, draws, kq, ctx):
-              any_tie = True
-              continue
-            i = mism[0]
-            corr.append(f'round {r} leaf {names[l]} coordinate {i}: aggregate impl {float(got[i])} vs model {float(m_out[l][i])}')
+      # (6) identical-client probes: different clients / rounds must get different randomness.
+      # Observed on VALUES only: all clients hold the same large off-grid tree, so equal quantised
+      # trees mean equal randomness (an independent pair coincides with probability <= 2^-60).
+      if case.get('identical') and finite:
+        if have:
+          for c, q_ in enumerate(qrec if kind == 'drive' else qq if len(qq) == len(clients) else qrec):
+            all_q.append((r, c, np.concatenate([np.asarray(x).reshape(-1) for x in q_])))
+        if len(pos) == 2 and abs(clients[pos[0]][1] - clients[pos[1]][1]) == 0 and kind in ('uniform', 'tern'):
+          # the aggregate of two identical clients with equal weights: if both drew the same
+          # randomness every coordinate sits on a level of the client's grid
+          leaves = clients[pos[0]][0]
+          onlev = True
+          for l in range(nl):
+            p2, _ = self.oracle_quant(kind, fr_list(leaves[l]), out[l].reshape(-1), L)
+            onlev = onlev and not p2
+          if onlev:
+            fail(f'round {r}: clients {pos[0]} and {pos[1]} hold the same off-grid update with equal weights and the '
+                 f'aggregate of the two lies entirely on the quantization levels: both were quantised with the same randomness',
+                 'same-randomness')
+        if len(pos) == 1:
+          marked_aggs.append((r, pos[0], np.concatenate([o.reshape(-1) for o in out])))
+    if case.get('identical'):
+      for i in range(len(all_q)):
+        for j in range(i + 1, len(all_q)):
+          (r1, c1, q1), (r2, c2, q2) = all_q[i], all_q[j]
+          if q1.shape == q2.shape and np.array_equal(q1, q2):
+            fail(f'round {r2} client {c2} and round {r1} client {c1} hold the same off-grid update and were quantised '
+                 f'to exactly the same tree: same randomness for different clients / rounds', 'same-randomness')
+            break
+        if okey and okey.endswith('same-randomness'):
+          break
+      for i in range(len(marked_aggs)):
+        for j in range(i + 1, len(marked_aggs)):
+          (r1, c1, q1), (r2, c2, q2) = marked_aggs[i], marked_aggs[j]
+          if q1.shape == q2.shape and np.array_equal(q1, q2):
+            fail(f'rounds {r1} and {r2} aggregate the same single off-grid update (clients {c1} / {c2}) and return '
+                 f'exactly the same tree: same randomness in different rounds', 'same-randomness')
     ctx.count('agg_rounds', R)
-    ctx.count('agg_cases_with_tie', int(any_tie))
-    distinct = len({str(cl[0]) for rd in case['rounds'] for cl in rd}) > 1
+    distinct = len({str(cl[0]) for rd in case['rounds'] for cl in rd}) > 1 or bool(case.get('identical'))
     varies = 'same' if all(x == rs[0] for x in rs) else ('leaves' if len({len(x) for x in rs}) > 1 else 'shapes')
     mags = [abs(x) for rd in case['rounds'] for lv, _ in rd for leaf in lv for x in leaf if x != 0.0]
     mag = 'zero' if not mags else ('tiny' if max(mags) < 1e-6 else ('large' if max(mags) > 1e5 else 'unit'))
     tags = (f'agg={a}', f'rounds={R}', f'clients={ncl if ncl <= 4 else ">64" if ncl > 64 else ">4"}',
-            f'failed_attempts={len(case.get("faults", []))}', f'feed={case.get("feed", "list")}', f'leaves={len(ALL)}', f'tree_over_rounds={varies}',
+            f'failed_attempts={len(case.get("faults", []))}', f'feed={case.get("feed", "list")}', f'leaves={len(ALL)}',
+            f'tree_over_rounds={varies}', f'identical_clients={bool(case.get("identical"))}',
             f'magnitude={mag}', f'L={L}' if kind in ('uniform', 'rotated') else 'L=-')
     return Outcome(oracle_fail='; '.join(problems[:3]) or None, corr_fail='; '.join(corr[:3]) or None, key=okey,
                    nontrivial=distinct, tags=tags,
                    detail={'impl': [None if ir['out'] is None else [o.reshape(-1).tolist()[:16] for o in ir['out']] for ir in impl_rounds],
                            'impl_bits': [float(ir['st'].num_bits) for ir in impl_rounds],
-                           'model': [[None if m[0] is None else [[float(x) for x in lf[:16]] for lf in m[0]], m[1], m[2]] for m in model]})
+                           'model_account': m_acc})
 
-  def drive_tie(self, clients, r, l, draws, kq, ctx):
-    """DRIVE: is some rotated coordinate of some client within float32 cancellation error of 0
-    (so that sign(y) may differ between float32 and exact arithmetic)?"""
-    lines, sums = [], []
-    for c, (leaves, w) in enumerate(clients):
-      p = kq[r][c][l]
-      signs = next(d[1] for d in draws if d[0] == p)
-      v = fr_list(leaves[l])
-      lines.append(line('c11.rotu', signs, v))
-      sums.append(sum(abs(x) for x in v))
-    for y, s1 in zip(ctx.drv.ask(lines), sums):
-      if any(abs(yi) <= Fr(1, 10 ** 5) * s1 for yi in y):
-        return True
-    return False
+  # ---- admissible values from the model ---------------------------------------------------------
+  def adm_line(self, q, v, L):
+    if q == 'uniform':
+      return line('c11.adm_uniform', L, v)
+    if q == 'binary':
+      return line('c11.adm_binary', v)
+    if q == 'tern':
+      return line('c11.adm_tern', Fr(std64(v)), v)
+    return line('c11.drive', v)
 
-  def rot_tie(self, case, ir, r, l, draws, kq, ksign, ctx):
-    """rotated aggregator: does some client have a near-tie coordinate in rotated space on leaf l?"""
-    L = case['L']
-    names = [chr(ord('a') + i) for i in range(len(self.rshapes(case)[r]))]
-    for c, e in enumerate(ir['rec']['rot']):
-      y = np.asarray(e['out'][0][names[l]], np.float64).reshape(-1)
-      v = [Fr(float(x)) for x in y]
-      p = kq[r][c][l]
-      us = next(d[1] for d in draws if d[0] == p)
-      _, _, lev = uniform_levels(v, L)
-      # float32 cancellation in the transform: |error of y| <~ 1e-6 * sum|x| / sqrt(d)
-      s1 = sum(abs(float(x)) for x in case['rounds'][r][c][0][l]) / math.sqrt(len(y))
-      rngy = float(y.max() - y.min())
-      extra = Fr(1) if rngy == 0 else Fr(min(1.0, 1e-5 * s1 * (L - 1) / rngy))
-      for i, (_, _, fr, t) in enumerate(lev):
-        tau = Fr(1, 2 ** 18) + Fr(1, 10 ** 5) * (1 + abs(t)) + extra
-        if min(abs(us[i] - fr), abs(us[i] - fr - 1), abs(us[i] - fr + 1)) < tau:
-          return True
-    return False
+  def not_admissible(self, q, v, got, adm, L):
+    """model side of the per-coordinate clause: every output is one of the two admissible values the
+    model lists (DRIVE: the one value).  Returns a description of the first offending coordinate."""
+    S = max([abs(x) for x in v] + [Fr(0)])
+    if q in ('uniform', 'binary'):
+      S = abs(min(v)) + abs(max(v))
+    Lq = L if q == 'uniform' else 2
+    step = (max(v) - min(v)) / (Lq - 1) if q in ('uniform', 'binary') else Fr(0)
+    for i, (o, ad) in enumerate(zip(got, adm)):
+      o = float(o)
+      if not math.isfinite(o):
+        return f'coordinate {i}: non-finite {o}'
+      oq = Fr(o)
+      cands = [ad] if q == 'drive' else list(ad)
+      eps = tol(S, oq) * (4 if q == 'drive' else 1)
+      if any(abs(oq - c) <= eps for c in cands):
+        continue
+      if q == 'uniform' and step > 0:
+        # float32 evaluation of the grid position may cross an integer when x is within rounding
+        # of a level: then the next level outward is a neighbour in float arithmetic
+        lo, hi = cands
+        t = (v[i] - min(v)) / step
+        slack = Fr(1, 10 ** 5) * max(1, abs(t)) * step
+        extra = ([lo - step] if v[i] - lo <= slack else []) + ([hi + step] if hi - v[i] <= slack else [])
+        if any(abs(oq - c) <= eps for c in extra):
+          continue
+      return (f'coordinate {i}: {float(v[i])} -> {o} is not one of the admissible values '
+              f'{[float(c) for c in cands]} of the model')
+    return None
 
 
 PROPERTY = C11
